@@ -231,8 +231,14 @@ def main():
         want = struct.unpack(">Q", struct.pack(">d", float(Decimal(txt))))[0]
         if code in impl_rates and int(impl_rates[code]) != want:
             die(f"rate {code}: the implementation read {txt} as bits {int(impl_rates[code]):x}, correctly rounded is {want:x}")
-        rate_rows.append(f"({lstr(code)}, {lrat(txt)})")
-    out.append("def rates : List (String × F) := " + llist(rate_rows) + "\n")
+        d = Decimal(txt)
+        if d < 0:
+            die(f"negative rate {code}")
+        n_, d_ = d.as_integer_ratio()
+        rate_rows.append(f"({lstr(code)}, {n_}, {d_})")
+    out.append("/-- currency code ↦ rate as the exact decimal of config.json (numerator, denominator) -/")
+    out.append("def rateTable : List (String × Nat × Nat) := " + llist(rate_rows) + "\n")
+    out.append("def rates : List (String × F) := rateTable.map fun r => (r.1, Num.ofRat false r.2.1 r.2.2)\n")
     zone_rows = [f"({lstr(z)}, {cfg['timezones'][z]})" for z in rust_sorted(cfg["timezones"].keys())]
     out.append("def zones : List (String × Int) := " + llist(zone_rows) + "\n")
 
@@ -261,6 +267,7 @@ def main():
 
     # languages
     lang_defs = []
+    rule_defs = []
     for lang in langs:
         L = cfg["languages"][lang]
         consts = llist([f"({lstr(k)}, {L['constant_pair'][k]})" for k in rust_sorted(L["constant_pair"].keys()) if 1 <= int(L["constant_pair"][k]) <= 11])
@@ -270,10 +277,12 @@ def main():
             if rname not in fn_names:
                 continue
             plist = llist([llist([linfo(t) for t in lexed[(lang, p)]]) for p in L["rules"][rname]["rules"]])
-            rules.append(f"    ⟨.{RULE_FN[rname]}, {plist}⟩")
+            rule_defs.append(f"def rule_{lang}_{rname} : Rule F := ⟨.{RULE_FN[rname]}, {plist}⟩\n")
+            rules.append(f"    rule_{lang}_{rname} F")
         if lang in date_rules:
             plist = llist([llist([linfo(t) for t in lexed[(lang, p)]]) for p in date_rules[lang]])
-            rules.append(f"    ⟨.smallDate, {plist}⟩")
+            rule_defs.append(f"def rule_{lang}_small_date : Rule F := ⟨.smallDate, {plist}⟩\n")
+            rules.append(f"    rule_{lang}_small_date F")
         durs = llist([f"⟨{lstr(d['count'])}, {lstr(d['format'])}, {DUR_KIND[d['duration_type']]}⟩" for d in L["format"]["duration"]])
         datef = llist([f"({lstr(k)}, {lstr(L['format']['date'][k])})" for k in rust_sorted(L["format"]["date"].keys())])
         months = [["", ""] for _ in range(12)]
@@ -288,6 +297,7 @@ def main():
         mrows = llist([f"({lstr(s)}, {lstr(l)})" for s, l in months])
         lang_defs.append(f"def lang_{lang} : Lang F := {{\n  name := {lstr(lang)},\n  constants := {consts},\n  groups := {groups},\n"
                          f"  rules := [\n" + ",\n".join(rules) + f"],\n  durFmts := {durs},\n  dateFmts := {datef},\n  months := {mrows} }}\n")
+    out.extend(rule_defs)
     out.extend(lang_defs)
     out.append("/-- `SmartCalc::default()` -/")
     out.append("def cfg : Cfg F := {\n  currencies := currencies, currencyAlias := currencyAlias, rates := rates F, zones := zones,\n"
